@@ -73,6 +73,9 @@ def zoo():
     return {
         "MLP": (lambda s: MLP(3, 2, [4, 4], "relu", nnx.Rngs(s)), lambda m: m(X3)),
         "MLP_linear": (lambda s: MLP(3, 2, [], "relu", nnx.Rngs(s)), lambda m: m(X3)),
+        # more than ten list-indexed sub-layers: index keys '10', '11' sort before '2' as strings
+        "MLP_deep12": (lambda s: MLP(3, 2, [4] * 12, "tanh", nnx.Rngs(s)), lambda m: m(X3)),
+        "LayerNormMLP_deep11": (lambda s: LayerNormMLP(3, 2, [4] * 11, "elu", nnx.Rngs(s)), lambda m: m(X3)),
         "GaussianMLP_shared": (lambda s: GaussianMLP(True, 3, 2, [4], "tanh", nnx.Rngs(s)), lambda m: m(X3)),
         "GaussianMLP_separate": (lambda s: GaussianMLP(False, 3, 2, [4], "tanh", nnx.Rngs(s)), lambda m: m(X3)),
         "LayerNormMLP": (lambda s: LayerNormMLP(3, 2, [4], "relu", nnx.Rngs(s)), lambda m: m(X3)),
@@ -256,14 +259,17 @@ def check_modules(chk, rng, tier):
                     pr = '(fun t -> sl (sp (sl sn) sz) t)'
                     exprs.append(f'("[" ^ so {pr} (M.orbax_restore {tl(file_t)} {tl(target_t)}) ^ "," ^ '
                                  f'{pr} (M.load_pickle (M.save_pickle {{M.m_graph = (); m_params = {tl(file_t)}}}) ()).M.m_params ^ "," ^ '
-                                 f'{pr} (M.restore_checkpoint {tl(file_t)} {{M.m_graph = (); m_params = {tl(target_t)}}}).M.m_params ^ "]")')
+                                 f'so (fun k -> {pr} k.M.m_params) (M.restore_checkpoint {tl(file_t)} {{M.m_graph = (); m_params = {tl(target_t)}}}) ^ "," ^ '
+                                 f'{pr} (M.restore_untargeted {tl(file_t)} {{M.m_graph = (); m_params = {tl(file_t)}}}).M.m_params ^ "]")')
                     recs.append((case, [[p, i] for p, i in impl_t], [[p, i] for p, i in file_t]))
         res = chk.model_eval(exprs)
-        for (case, impl_t, file_t), (m_orbax, m_pickle, m_rc) in zip(recs, res):
+        for (case, impl_t, file_t), (m_orbax, m_pickle, m_rc, m_unt) in zip(recs, res):
             if m_orbax != impl_t:
                 chk.disagree("tree.orbax_restore", {"case": case, "impl": impl_t[:8], "model": (m_orbax or [])[:8]})
-            if m_pickle != file_t or m_rc != file_t:
-                chk.disagree("tree.pickle/restore_checkpoint", {"case": case, "model_pickle": m_pickle[:8], "file": file_t[:8]})
+            if m_pickle != file_t or m_rc != impl_t:
+                chk.disagree("tree.pickle/restore_checkpoint", {"case": case, "model_pickle": m_pickle[:8], "model_restore_checkpoint": (m_rc or [])[:8], "file": file_t[:8]})
+            # the pre-repair variant of the model (no restore target) must be wrong exactly for the modules with more than ten list entries
+            chk.count("untargeted_restore_would_permute" if m_unt != file_t else "untargeted_restore_would_be_identity")
     finally:
         shutil.rmtree(root, ignore_errors=True)
     chk.count("module_types", len(Z))
